@@ -37,6 +37,10 @@ def p_range(a, b=None, step=1):
         cur, i = a, 0
         while cur < b:
             if i >= MAXIT:
+                # a path this long is normally one kept by a timed-out feasibility query: cut it when the solver proves it infeasible
+                from dvc import smt
+                if not smt.quick_sat(pysym.Ctx.cur.pc(), 20000):
+                    raise pysym.PathAbort()
                 raise Undecided("symbolic range longer than %d" % MAXIT)
             yield cur
             cur = cur + step
